@@ -45,13 +45,13 @@ class Table:
     Data Class for Table
     """
 
-    def __init__(self, name: str, schema: Schema = Schema(), **kwargs):
+    def __init__(self, name: str, schema: Optional[Schema] = None, **kwargs):
         """
         :param name: table name
-        :param schema: schema as defined by :class:`Schema`
+        :param schema: schema as defined by :class:`Schema`, default schema at the time of the call when not given
         """
         if "." not in name:
-            self.schema = schema
+            self.schema = schema if schema is not None else Schema()
             self.raw_name = escape_identifier_name(name)
         else:
             schema_name, table_name = name.rsplit(".", 1)
